@@ -240,6 +240,7 @@ func (p *parser) parsePrimary() Node {
 func (p *parser) parseConditionalExpression(node Node) Node {
 	var expr1, expr2 Node
 	for p.current.Is(Operator, "?") && p.err == nil {
+		token := p.current
 		p.next()
 
 		if !p.current.Is(Operator, ":") {
@@ -257,6 +258,7 @@ func (p *parser) parseConditionalExpression(node Node) Node {
 			Exp1: expr1,
 			Exp2: expr2,
 		}
+		node.SetLocation(token.Location)
 	}
 	return node
 }
